@@ -201,6 +201,8 @@ def uextract(exe):
     for e in ev:
         if e.get("e") != "Step":
             continue
+        if e["op"] == "uempty":
+            continue        # empty() is a separate (relaxed) read of `next` that the model's actions do not contain
         for a in e["acc"]:
             sites.setdefault((a["obj"] % 3, a["op"], a["t"]), set()).add(a["mo"])
         if e["op"] == "upr" and e.get("alloc"):
@@ -353,6 +355,8 @@ def ucontract_lines(evs):
                 out.append({"k": "upr", "got": bool(e["got"]), "bad": bad})
             elif op == "read":
                 out.append({"k": "read", "id": e["id"], "committed": bool(e.get("committed")), "bad": bad})
+            elif op == "uempty":
+                out.append({"k": "uempty", "empty": bool(e["empty"]), "bad": bad})
             elif op == "shrink":
                 out.append({"k": "shrink", "c": e.get("c", 0), "before": e["before"], "after": e["after"],
                             "maxalloc": e["maxalloc"], "bad": bad})
